@@ -15,11 +15,11 @@ VARIABLES tr, l, verdict
 tvars == <<vars, tr, l, verdict>>
 Ev == Traces[tr].events
 ToSet(s) == {s[i] : i \in 1..Len(s)}
-Load(e) == /\ S' = ToSet(e.S) /\ r' = e.r /\ strict' = e.strict /\ bclass' = e.bclass
+Load(e) == /\ S' = ToSet(e.S) /\ r' = e.r /\ strict' = e.strict /\ bclass' = e.bclass /\ msrc' = e.msrc
            /\ pc' = "closure" /\ fi' = 1 /\ res' = "" /\ hops' = <<>>
 TInit == /\ tr \in 1..Len(Traces) /\ l = 1 /\ verdict = "run"
          /\ Len(Ev) > 0
-         /\ S = ToSet(Ev[1].S) /\ r = Ev[1].r /\ strict = Ev[1].strict /\ bclass = Ev[1].bclass
+         /\ S = ToSet(Ev[1].S) /\ r = Ev[1].r /\ strict = Ev[1].strict /\ bclass = Ev[1].bclass /\ msrc = Ev[1].msrc
          /\ pc = "closure" /\ fi = 1 /\ res = "" /\ hops = <<>>
 Report(ok, i, clause) == PrintT(ToJson([t |-> Traces[tr].id, ok |-> ok, i |-> i, clause |-> clause]))
 THop == /\ verdict = "run" /\ pc # "done"
